@@ -666,8 +666,9 @@ class DFA:
 
     def mark_accepting(self, state):
         if isinstance(state, int):
-            self.accepting_states.append(DFState.all_states[state])
-        else:
+            state = DFState.all_states[state]
+        # a state is only listed once, however often it is marked (actions chained into the accepting states must land once)
+        if state not in self.accepting_states:
             self.accepting_states.append(state)
 
     def simulate(self, actions):
